@@ -35,7 +35,7 @@ FLOORS = {'quick': {'linked': 150, 'how:parsed': 100, 'how:built': 100, 'edit:re
 EDITS = ['rename_table', 'rename_schema', 'rename_alias', 'rename_column', 'rename_enum', 'rename_enum_schema', 'rename_item',
          'type_plain', 'type_enum', 'flags', 'default', 'table_note', 'column_note', 'ref_kind', 'ref_inline', 'ref_name',
          'ref_actions', 'add_column', 'add_index', 'add_item', 'remove_index', 'comment', 'header_color', 'index_opts',
-         'group_edit', 'project_edit', 'dup_index', 'dup_remove_index', 'column_comment', 'ref_comment', 'enum_comment', 'index_comment']
+         'group_edit', 'project_edit', 'dup_index', 'dup_remove_index', 'column_comment', 'ref_comment', 'enum_comment', 'index_comment', 'default_equal']
 NEW_NAMES = ['renamed', 'new name', 'Z', 'ünï', 'x{0}', 'order', 'note']
 
 
@@ -75,7 +75,7 @@ def apply_edit(s: ASchema, db, e, step):
     nm = NEW_NAMES[c % len(NEW_NAMES)] + f'_{step}'
     if kind in ('rename_table', 'rename_schema', 'rename_alias', 'table_note', 'add_column', 'add_index', 'remove_index',
                 'header_color', 'rename_column', 'type_plain', 'type_enum', 'flags', 'default', 'column_note', 'comment', 'index_opts',
-                'dup_index', 'dup_remove_index', 'column_comment', 'index_comment'):
+                'dup_index', 'dup_remove_index', 'column_comment', 'index_comment', 'default_equal'):
         if not s.tables:
             return None
         ti = a % len(s.tables)
@@ -236,6 +236,14 @@ def apply_edit(s: ASchema, db, e, step):
             d = [None, ('int', step), ('str', f'v{step}'), ('expr', 'now()'), ('bool', True), ('null', None), ('float', 1.5)][c % 7]
             col.default = d
             lc.default = build_default(d)
+            return kind
+        if kind == 'default_equal':
+            # two assignments in a row whose values compare equal in Python (True == 1 == 1.0) but are different defaults
+            first, second = [(('bool', True), ('int', 1)), (('int', 0), ('bool', False)), (('int', 1), ('float', 1.0)),
+                             (('float', 2.0), ('int', 2)), (('bool', False), ('float', 0.0))][c % 5]
+            lc.default = build_default(first)
+            col.default = second
+            lc.default = build_default(second)
             return kind
         if kind == 'column_comment':
             col.comment = None if c % 3 == 0 else f'column comment {step}'
